@@ -42,6 +42,7 @@ def run(ctx):
     ctx.rule(_full_sibling)
     ctx.rule(single_chunk_history)
     ctx.rule(split_invariance)
+    ctx.rule(frame_style_domain)
     ctx.rule(si_finalize)
     ctx.rule(carry)
     ctx.rule(shift_register)
@@ -346,6 +347,75 @@ def _full_sibling(ctx, R="R-C01-geom-siblings"):
     path is held to (frame count, paddings, frame bounds per frame style / kaldi_shift)"""
     from .c02 import geom
     geom(ctx, R)
+
+
+def frame_style_domain(ctx, R="R-C01-geom-siblings"):
+    """compute_chunk, finalize and compute_full each decide the frame geometry by comparing the stored frame style with a
+    literal - some with 'centered', some with 'causal', the other style being the else branch.  They agree only if the stored
+    value is one of exactly these two strings: the constructor's test is evaluated for spellings a lenient validation would let
+    through (capitalised, padded), and whatever is accepted must be stored as 'causal' or 'centered'."""
+    from .. import scenario as SC
+    prog = ctx.prog
+    what = "a frame style the constructor accepts is stored as 'causal' or 'centered' (the only values the framing code tells apart)"
+    n = 0
+    for cname in ("compute.ShortTimeFourierTransformFrameComputer", "compute.ShortIntegrationFrameComputer"):
+        c = prog.cls(cname)
+        init = prog.find_method(c, "__init__")
+        if init is None or "frame_style" not in init.all_param_names():
+            ctx.error(R, "cannot decide %s: %s has no frame_style parameter" % (what, c.name))
+            continue
+        try:
+            ev = SymEval(prog, init, inline_self=True).run()
+        except Exception as e:
+            ctx.error(R, "cannot decide %s: %r" % (what, e))
+            continue
+        stored = ev.env.get("self._frame_style")
+        if stored is None:
+            ctx.error(R, "cannot decide %s: %s.__init__ does not store self._frame_style" % (what, c.name))
+            continue
+
+        def at(e, v):
+            def fn(x):
+                if x.op == "sym" and x.args[0] == "frame_style":
+                    return S.lift(v)
+                if x.op == "call" and x.args[0] in (".lower", ".upper", ".strip", ".casefold") and len(x.args) == 2 and x.args[1].is_const and isinstance(x.args[1].value, str):
+                    return S.lift(getattr(x.args[1].value, x.args[0][1:])())
+                if x.op == "cmp" and x.args[0] in ("is", "is not") and x.args[2] == S.NONE and x.args[1].is_const and x.args[1].value is not None:
+                    return S.lift(x.args[0] == "is not")
+                if x.op == "cmp" and x.args[0] in ("==", "!=") and x.args[1].is_const and x.args[2].is_const:
+                    return S.lift((x.args[1].value == x.args[2].value) == (x.args[0] == "=="))
+                return SC.fold_membership(x)
+            out = e
+            for _ in range(5):
+                nxt = SC.transform(out, fn)
+                if nxt == out:
+                    break
+                out = nxt
+            return out
+        decided = True
+        for v in ("causal", "centered", "Causal", "Centered", "CENTERED", "CAUSAL", " centered", "centred", "x"):
+            gs = [at(g, v) for g, _ in ev.raises]
+            # guards that depend on other arguments (the bank, the window) are not about the style
+            gs = [g for g in gs if g.is_const]
+            rejected = any(S.truthy(g) for g in gs)
+            if rejected:
+                continue
+            sv = at(stored, v)
+            if not sv.is_const:
+                decided = False
+                break
+            n += 1
+            if sv.value not in ("causal", "centered"):
+                ctx.bad(R, init, init.node, "%s(frame_style=%r) is accepted and stored as %r: compute_chunk tests the style against 'centered', finalize and compute_full "
+                        "against 'causal', so such a computer frames its chunks one way and the whole signal the other (different frame counts and values)"
+                        % (c.name, v, sv.value), what, robust=True)
+                decided = None
+                break
+        if decided:
+            ctx.ok(R, init.loc(), what, "%s: constructor evaluated for 9 spellings" % c.name)
+        elif decided is False:
+            ctx.error(R, "cannot decide %s for %s: the stored value is %s" % (what, c.name, S.show(stored)[:120]))
+    ctx.floor(R + "/frame-style", n, 2)
 
 
 def split_invariance(ctx, R="R-C01-split"):
